@@ -100,28 +100,28 @@ Print Assumptions from_day_covers_all_zones_refuted.
 
 (* ---- window_semantic, relative to SqlEval ---------------------------------------------------------
    a row that passes every conjunct of a timestamp-bounded scan lies inside the widened window *)
-Theorem window_semantic : forall re_match parse_float tie db w sc r ts,
+Theorem window_semantic : forall re_match parse_float json_get hash_labels tie db w sc r ts,
   ts_bounded w sc -> col_value sc "timestamp_ns" (sc_tsn sc) r ts ->
-  kept re_match parse_float tie db sc r ->
+  kept re_match parse_float json_get hash_labels tie db sc r ->
   w_lo_min w <= ts /\ ts <= w_hi_max w.
 Proof. exact kept_in_window. Qed.
 Print Assumptions window_semantic.
 
 (* ... and carries the type of the API that was called, or 0 *)
-Theorem window_semantic_type : forall re_match parse_float tie db w sc r ty,
+Theorem window_semantic_type : forall re_match parse_float json_get hash_labels tie db w sc r ty,
   type_confined w sc -> col_value sc "type" ["type"%string] r ty ->
-  kept re_match parse_float tie db sc r ->
+  kept re_match parse_float json_get hash_labels tie db sc r ->
   ty = w_type w \/ ty = 0.
 Proof. exact kept_type. Qed.
 Print Assumptions window_semantic_type.
 
 (* ... and no row inside the requested window is cut off by a timestamp conjunct *)
-Theorem window_semantic_complete : forall re_match parse_float tie db w sc r ts e,
+Theorem window_semantic_complete : forall re_match parse_float json_get hash_labels tie db w sc r ts e,
   (forall lo, has_bnd sc (TsLo lo) -> lo <= w_from w) -> (forall hi, has_bnd sc (TsHi hi) -> w_to w <= hi) ->
   col_value sc "timestamp_ns" (sc_tsn sc) r ts -> w_from w <= ts < w_to w ->
   List.In e (sc_conj sc) ->
   (exists x, List.In x (classify sc e) /\ ((exists z, x = TsLo z) \/ (exists z, x = TsHi z))) ->
-  passes re_match parse_float tie db r e.
+  passes re_match parse_float json_get hash_labels tie db r e.
 Proof. exact window_row_passes_ts. Qed.
 Print Assumptions window_semantic_complete.
 
